@@ -7,8 +7,16 @@ Kept results go to /verif/seeded/<ID>_m<k>/ {patch.diff, demo files, meta.json}.
 import glob, json, os, re, shutil, subprocess, sys, time
 
 ENV = dict(os.environ, GOFLAGS='-mod=mod', GOPROXY='off', GOSUMDB='off', GOTOOLCHAIN='local')
-WT = '/tmp/wt_seed'
+TAG = os.environ.get('SEED_TAG', '')
+VERIF = os.environ.get('SEED_VERIF', '/verif')   # a byte-identical copy of /verif may be used to run several changes at once
+WT = '/tmp/wt_seed' + TAG
 ALL = ['C%02d' % i for i in range(1, 21)]
+# when the target check misses a change, the checks of neighbouring properties are tried (SEED_FALLBACK=all: every check)
+RELATED = {'C01': ['C08', 'C18'], 'C08': ['C09', 'C01', 'C19'], 'C09': ['C08', 'C18'], 'C10': ['C02', 'C09', 'C15'],
+           'C02': ['C17', 'C16', 'C15'], 'C03': ['C04', 'C05', 'C18'], 'C04': ['C03', 'C05'], 'C05': ['C14', 'C04', 'C06'],
+           'C06': ['C19', 'C07', 'C05'], 'C07': ['C02', 'C06', 'C19'], 'C11': ['C16', 'C12', 'C04'], 'C12': ['C13', 'C11', 'C15'],
+           'C13': ['C12', 'C15'], 'C14': ['C05', 'C02', 'C16'], 'C15': ['C02', 'C16', 'C13'], 'C16': ['C02', 'C15', 'C14'],
+           'C17': ['C02', 'C07'], 'C18': ['C03', 'C09', 'C01'], 'C19': ['C08', 'C09', 'C07', 'C20'], 'C20': ['C19', 'C03', 'C06']}
 
 
 def sh(cmd, **kw):
@@ -22,9 +30,9 @@ def reset_wt():
 
 
 def tests_ok():
-    os.makedirs('/tmp/seed_mod', exist_ok=True)
-    shutil.copy(WT + '/go.mod', '/tmp/seed_mod/go.mod'); shutil.copy(WT + '/go.sum', '/tmp/seed_mod/go.sum')
-    r = sh(['go', 'test', '-modfile=/tmp/seed_mod/go.mod', '-vet=off', '-count=1', '-v', './...'], cwd=WT, env=ENV)
+    os.makedirs('/tmp/seed_mod' + TAG, exist_ok=True)
+    shutil.copy(WT + '/go.mod', '/tmp/seed_mod' + TAG + '/go.mod'); shutil.copy(WT + '/go.sum', '/tmp/seed_mod' + TAG + '/go.sum')
+    r = sh(['go', 'test', '-modfile=/tmp/seed_mod' + TAG + '/go.mod', '-vet=off', '-count=1', '-v', './...'], cwd=WT, env=ENV)
     out = r.stdout.decode(errors='replace')
     fails = sorted(set(re.findall(r'--- FAIL: (\S+)', out)))
     npass = len(re.findall(r'--- PASS: ', out))
@@ -33,7 +41,7 @@ def tests_ok():
 
 
 def build(out):
-    r = sh(['go', 'build', '-modfile=/tmp/seed_mod/go.mod', '-o', out, '.'], cwd=WT, env=ENV)
+    r = sh(['go', 'build', '-modfile=/tmp/seed_mod' + TAG + '/go.mod', '-o', out, '.'], cwd=WT, env=ENV)
     return r.returncode == 0, r.stderr.decode(errors='replace')[-300:]
 
 
@@ -43,7 +51,7 @@ def run_demo(binary, base):
         inp = open(stdin, 'rb').read() if os.path.exists(stdin) else b''
         outs = []
         for _ in range(8):     # several runs: some changes only show as run-to-run variation
-            d = '/tmp/seed_demo'; os.makedirs(d, exist_ok=True)
+            d = '/tmp/seed_demo' + TAG; os.makedirs(d, exist_ok=True)
             shutil.copy(bn, d + '/demo.bn')
             try:
                 r = subprocess.run([binary, 'demo.bn'], cwd=d, input=inp, stdout=subprocess.PIPE, stderr=subprocess.PIPE, timeout=10)
@@ -62,7 +70,7 @@ def run_demo(binary, base):
 
 def run_check(pid):
     t0 = time.time()
-    r = sh(['./check', pid, '--tier', 'quick'], cwd='/verif', env=dict(ENV, BORNO_REPO=WT, VERIF_SEED=os.environ.get('VERIF_SEED', '0')))
+    r = sh(['./check', pid, '--tier', 'quick'], cwd=VERIF, env=dict(ENV, BORNO_REPO=WT, VERIF_SEED=os.environ.get('VERIF_SEED', '0')))
     out = r.stdout.decode(errors='replace')
     viol = [l for l in out.split('\n') if l.startswith('VIOLATION')]
     reasons = [l.strip()[:400] for l in out.split('\n') if l.startswith('  ')][:3]
@@ -77,7 +85,7 @@ def main():
     for d in sorted(glob.glob('/verif/seeded/*/patch.diff')):
         nm = os.path.basename(os.path.dirname(d))
         if nm not in have:
-            stage = '/tmp/seed_stage'
+            stage = '/tmp/seed_stage' + TAG
             os.makedirs(stage, exist_ok=True)
             shutil.copy(d, os.path.join(stage, nm + '.patch'))
             for f in glob.glob(os.path.join(os.path.dirname(d), nm + '_demo.*')):
@@ -110,15 +118,15 @@ def main():
             meta['summary'] = 'no json: %s' % e
         reset_wt()
         tests_ok()
-        build('/tmp/seed_clean')
-        clean_demo = run_demo('/tmp/seed_clean', base)
+        build('/tmp/seed_clean' + TAG)
+        clean_demo = run_demo('/tmp/seed_clean' + TAG, base)
         r = sh(['git', '-C', WT, 'apply', p])
         if r.returncode != 0:
             meta['rejected'] = 'patch does not apply: ' + r.stderr.decode()[-200:]
             print(name, meta['rejected'], flush=True); continue
-        okb, msg = build('/tmp/seed_changed')
+        okb, msg = build('/tmp/seed_changed' + TAG)
         okt, tmsg = tests_ok()
-        changed_demo = run_demo('/tmp/seed_changed', base)
+        changed_demo = run_demo('/tmp/seed_changed' + TAG, base)
         meta['builds'] = okb; meta['baseline_suite'] = tmsg
         differs = clean_demo is not None and changed_demo is not None and set(clean_demo) != set(changed_demo)
         meta['demo_differs'] = differs
@@ -131,7 +139,7 @@ def main():
             meta['detected_by_target'] = rc == 1 and bool(viol)
             caught = [pid] if meta['detected_by_target'] else []
             if not caught:
-                for q in ALL:
+                for q in (RELATED.get(pid, ALL) if os.environ.get('SEED_FALLBACK', 'related') == 'related' else ALL):
                     if q == pid:
                         continue
                     rc2, viol2, reasons2, _ = run_check(q)
@@ -142,7 +150,7 @@ def main():
                             break
             meta['detected_by'] = caught
             print(name, 'DETECTED by' if caught else 'MISSED', caught, reasons[:1], flush=True)
-        meta['ran'] = 'tools/seedtest.py: scratch worktree %s; go build; baseline suite; demonstration on clean and changed builds; ./check %s --tier quick with BORNO_REPO=%s' % (WT, pid, WT)
+        meta['ran'] = 'tools/seedtest.py: scratch worktree %s; go build; baseline suite; demonstration on clean and changed builds; ./check %s --tier quick with BORNO_REPO=%s%s' % (WT, pid, WT, '' if VERIF == '/verif' else ' (run from a byte-identical copy of /verif at %s so that several changes could be tried at once)' % VERIF)
         os.makedirs(dest, exist_ok=True)
         shutil.copy(p, os.path.join(dest, 'patch.diff'))
         for f in glob.glob(base + '_demo.*'):
